@@ -423,7 +423,9 @@ def check_c07(c):
             if not st.is_leaf(n) and any(c.T(x)['start'] is not None for x in st.children[n]):
                 return V('C07', 'summary-start', f'{n}: summary has start {t["start"]} / end {t["end"]} although its children have dates', c)
             continue  # no dates at all: C06 matter
-        fixed_end_only = st.is_leaf(n) and c.kw(n).get('end') and not c.kw(n).get('start')
+        # a leaf with a user-fixed end but no start (and, through the roll-up, its summaries) is outside the statement
+        fixed_end_only = any(c.kw(x).get('end') and not c.kw(x).get('start')
+                             for x in ([n] if st.is_leaf(n) else [l for l in st.leaves(n)]))
         if t['start'] > t['end'] and not fixed_end_only:
             return V('C07', 'start-after-end', f'{n}: start {t["start"]} > end {t["end"]}', c)
         if not st.is_leaf(n):
@@ -461,8 +463,7 @@ def check_c08(c, quarantine=()):
                 continue
             t = c.T(n)
             rn = kw.get('resource')
-            if c.limited(rn, n):
-                continue  # "fully booked" is not defined for a task the resource offers only part of a day
+            limited = c.limited(rn, n)   # "fully booked" is not defined for a task the resource offers its own amount to
             rows = c.rows_by_task.get(n, [])
             rel = [c.proj]
             if c.r_max is not None:
@@ -474,9 +475,9 @@ def check_c08(c, quarantine=()):
             last = max(d for _, _, d, _ in rows) if rows else day(t['start'])
             d = day(release)
             steps = 0
-            while d < last and steps < 4000:
+            while d < last and steps < 4000 and not limited:
                 cap = c.cap(rn, d) or 0
-                if cap > 0 and not feq(c.booked(rn, d), cap):
+                if cap > 0 and not fle(cap, c.booked(rn, d)):
                     return V('C08', 'idle-day', f'{n} ({rn!r}) released {release}, last work day {last.date()}, but {d.date()} has {c.booked(rn, d)} of {cap} booked', c)
                 d += _dt.timedelta(days=1)
                 steps += 1
@@ -484,15 +485,15 @@ def check_c08(c, quarantine=()):
             exact = c.r_max is None or c.r_max <= c.proj
             if exact and 'F17' in quarantine and c.proj != day(c.proj) and c.r_max is not None and c.r_max.date() == c.proj.date():
                 exact = False
-            if exact and rows and all((c.cap(rn, d) or 0) > 0 for _, _, d, _ in rows):
+            if exact and rows and all((c.cap_for(rn, d, n) or 0) > 0 for _, _, d, _ in rows):
                 first_i, _, first_d, _ = rows[0]
-                cap0 = c.cap(rn, first_d)
+                cap0 = c.cap_for(rn, first_d, n)
                 before = c.booked(rn, first_d, upto_index=first_i - 1) if first_i > 0 else 0
                 exp = first_d + H24 * (before / cap0)
                 if not deq(t['start'], exp):
                     return V('C08', 'start-encoding', f'{n}: start {t["start"]}, expected {exp} ({before} of {cap0} booked before on {first_d.date()})', c)
                 last_i, _, last_d, _ = rows[-1]
-                capl = c.cap(rn, last_d)
+                capl = c.cap_for(rn, last_d, n)
                 thru = c.booked(rn, last_d, upto_index=last_i)
                 exp = last_d + H24 * (thru / capl)
                 if not deq(t['end'], exp):
@@ -541,7 +542,7 @@ def check_c09(c):
         steps = 0
         while d < day(due) and steps < 4000:
             cap = c.cap(rn, d) or 0
-            if cap > 0 and not feq(c.booked(rn, d), cap):
+            if cap > 0 and not fle(cap, c.booked(rn, d)):
                 return V('C09', 'not-late-packed', f'{n} ({rn!r}) ends {t["end"]}, due {due}, but {d.date()} has {c.booked(rn, d)} of {cap} booked', c)
             d += _dt.timedelta(days=1)
             steps += 1
@@ -551,7 +552,7 @@ def check_c09(c):
             d = first + _dt.timedelta(days=1)
             while d < last:
                 cap = c.cap(rn, d) or 0
-                if cap > 0 and not feq(c.booked(rn, d), cap):
+                if cap > 0 and not fle(cap, c.booked(rn, d)):
                     return V('C09', 'gap-in-work', f'{n}: {d.date()} between work days {first.date()}..{last.date()} has {c.booked(rn, d)} of {cap} booked', c)
                 d += _dt.timedelta(days=1)
             fi = [i for i, _, dd, _ in rows if dd == first][0]
